@@ -146,16 +146,21 @@ AllocSecChk(C, st, x, a, q, derived) ==
 \* the model-checking configs instead of enumerating a quantity range.
 RECURSIVE DownTo(_, _, _, _, _)
 DownTo(C, st, x, a, q) ==
-  IF RLe(Cost(C, st, x, R(q)), a) \/ q < -100000 THEN q ELSE DownTo(C, st, x, a, q - 1)
+  IF Cmp(Cost(C, st, x, R(q)), a) \in {-1, 0, 2} \/ q < -100000 THEN q ELSE DownTo(C, st, x, a, q - 1)
 RECURSIVE UpTo(_, _, _, _, _)
 UpTo(C, st, x, a, q) ==
-  IF RGt(Cost(C, st, x, R(q + 1)), a) \/ q > 100000 THEN q ELSE UpTo(C, st, x, a, q + 1)
+  IF Cmp(Cost(C, st, x, R(q + 1)), a) \in {1, 2} \/ q > 100000 THEN q ELSE UpTo(C, st, x, a, q + 1)
 MaxQ(C, st, x, a) ==
   IF IsZero(a) THEN Zero ELSE
   IF RAdd(a, SecVal(C, st, x)) = Zero THEN RNeg(st.pos[x]) ELSE
   IF C.integer THEN
-     LET q0 == RFloor(RDiv(a, UnitPx(C, st, x)))
-     IN  R(UpTo(C, st, x, a, DownTo(C, st, x, a, q0)))
+     \* start the search at the quantity that fits without commission (the half
+     \* spread moves the unit cost against the trade)
+     LET hs == RMul(RDiv(Spr(C, x, st.t), R(2)), C.mult[x])
+         ue == IF RSign(a) > 0 THEN RAdd(UnitPx(C, st, x), hs) ELSE RSub(UnitPx(C, st, x), hs)
+         q0 == IF Bad(ue) \/ RSign(ue) # 1 THEN RFloor(RDiv(a, UnitPx(C, st, x))) ELSE RFloor(RDiv(a, ue))
+     IN  IF Cmp(Cost(C, st, x, R(q0)), a) = 2 THEN OVF    \* outside 32-bit rationals
+         ELSE R(UpTo(C, st, x, a, DownTo(C, st, x, a, q0)))
   ELSE \* fractional, costs linear in |q|: a = q*P*m + |q|*S/2*m (zero commission only)
      LET s == IF RSign(a) > 0 THEN One ELSE R(-1)
      IN  RDiv(a, RAdd(UnitPx(C, st, x),
